@@ -196,6 +196,9 @@ def load(repo=None, extra_tus=None, extra_roots=None, use_cache=True, only_tus=N
     for d in docs:
         facts.tus.append(d["tu"])
         for f in d["functions"]:
+            if f["key"] in facts.functions and facts.functions[f["key"]]["file"] != f["file"]:
+                # same signature defined in several files (each tool's main, static helpers): keep both
+                f["key"] = "%s@%s" % (f["key"], os.path.basename(f["file"]))
             if f["key"] not in facts.functions:
                 facts.functions[f["key"]] = f
                 facts.by_qn.setdefault(f["qn"], []).append(f)
